@@ -122,8 +122,20 @@ def run_one(params: dict, chooser, deviations=True) -> dict:
                 lib_srv.fail_writes = ConnectionResetError(104, 'reset')
             holder: dict = {}
 
+            if params.get('reuse'):
+                # an established connection with the peer exists; the peer hangs it up (FIN) around the time of the
+                # request: the request gets that connection only while it is usable, otherwise a new one
+                existing = peer.connect_init(60000, typ)
+                world.run_default_until_idle()
+
+                def hangup():
+                    existing.close()
+                world.post(EnvEvent('inject', 'peer-closes-existing', hangup, chan=None))
+
             async def request():
-                if params.get('explicit_addr') or indirect == 'server_send_fails':
+                if params.get('reuse'):
+                    c = await network.get_peer_connection('bob', typ)
+                elif params.get('explicit_addr') or indirect == 'server_send_fails':
                     c = await network.create_peer_connection(
                         'bob', typ, ip=PEER_IP, port=target_port, obfuscate=use_obf)
                 else:
@@ -173,6 +185,9 @@ def run_one(params: dict, chooser, deviations=True) -> dict:
             elif slot['state'] not in ('done', 'cancelled') and any(
                     ev.chan in ((1, 0), (1, 1)) for ev in stuck):
                 pass    # a server answer (GetPeerAddress) is withheld for ever: outside the stated fault model
+            elif slot['state'] not in ('done', 'cancelled') and any(
+                    lbl.startswith(('slowcpu', 'hold:op:u')) for lbl in labels):
+                pass    # a late loop / a late call used up the horizon (its time-outs are counted from the late start)
             elif slot['state'] not in ('done', 'cancelled'):
                 add('never-returns', f"create_peer_connection still pending at the horizon ({slot['state']})",
                     'C11:never-returns')
@@ -192,7 +207,7 @@ def run_one(params: dict, chooser, deviations=True) -> dict:
                     o[1] == 'state' and o[5] == 'TIMEOUT' for o in world.obs if len(o) > 5)
                 if result != ('CONNECTED', want_cs, typ, 'bob') and not late_timeout:
                     add('unusable-connection', f"returned connection is {result}", 'C11:unusable-connection')
-                if not should and not timing_dev:
+                if not should and not timing_dev and not params.get('reuse'):
                     add('should-fail', f"returned a connection although direct={direct} indirect={indirect}",
                         'C11:should-fail')
                 # the peer must have seen a decodable init on that very socket (direct) or sent the pierce
@@ -231,7 +246,9 @@ def run_one(params: dict, chooser, deviations=True) -> dict:
                     add('leftover-connection',
                         f"registry holds {extra!r} besides the returned connection",
                         f"C11:leftover-connection:{extra[0].state.name}:{'in' if extra[0].incoming else 'out'}")
-                if keep is not None and not any(c is keep for c in reg) and not late_timeout:
+                if params.get('reuse'):
+                    pass      # the peer hangs the reused connection up: it is judged at the moment it was returned
+                elif keep is not None and not any(c is keep for c in reg) and not late_timeout:
                     add('returned-not-registered', f"{keep!r} not in registry", 'C11:returned-not-registered')
                 keep_t = keep._writer.transport if (keep is not None and keep._writer is not None) else None
                 for sc in net.conns:
@@ -343,6 +360,10 @@ def scenarios(tier: str):
         for direct, indirect in (('ok', 'silence'), ('refuse', 'pierce'), ('hang', 'silence')):
             out.append({'mode': mode, 'direct': direct, 'indirect': indirect, 'ports': 'both', 'prefer_obf': True,
                         'cancel': False, 'typ': 'D', 'explicit_addr': True})
+    for mode in ('fallback', 'race'):
+        for direct, indirect in (('ok', 'silence'), ('refuse', 'pierce'), ('refuse', 'silence')):
+            out.append({'mode': mode, 'direct': direct, 'indirect': indirect, 'ports': 'clear', 'prefer_obf': False,
+                        'cancel': False, 'typ': 'P', 'reuse': True})
     for direct in ('ok', 'refuse', 'hang', 'init_send_fails'):
         for ports, prefer in (('clear', False), ('obf', False), ('both', False), ('both', True)):
             for typ in ('P', 'F'):
